@@ -238,7 +238,7 @@ func c10RunSrc(c *Ctx, fields []driver.VerifField, st *c10Stats) {
 			c10LastRefOuts = r.Outs
 			return r.Hashes
 		}
-		c10History(c, "session-src", p, ref, ref, cfg0, lines, child, 6, st)
+		c10History(c, "session-src", p, ref, ref, cfg0, lines, child, 40, st)
 	}
 	// web: option assignments (as SetVariableDefault / flags would make them) between /source requests
 	for k := 0; k < c.Budget(25, 250); k++ {
